@@ -54,6 +54,9 @@ class IsoTpStateMachine:
         except ValueError:
             return  # unknown CAN ID
 
+        if len(data) == 0:
+            return  # empty frames do not carry any ISO-TP protocol information
+
         # decode the isotp segment
         frame_type, _ = bitstruct.unpack("u4u4", data)
         assert isinstance(frame_type, int)
@@ -69,6 +72,11 @@ class IsoTpStateMachine:
             yield (rx_id, data[1:1 + telegram_len])
 
         elif frame_type == IsoTp.FRAME_TYPE_FIRST:
+            if len(data) < 2:
+                # truncated first frame: the length field is incomplete
+                self.on_frame_type_error(telegram_idx, frame_type)
+                return
+
             frame_type, telegram_len = bitstruct.unpack("u4u12", data)
             assert isinstance(telegram_len, int)
 
@@ -84,7 +92,11 @@ class IsoTpStateMachine:
 
             expected_segment_idx = (self._telegram_last_rx_fragment_idx[telegram_idx] + 1) % 16
             telegram_data = self._telegram_data[telegram_idx]
-            assert isinstance(telegram_data, bytearray)
+            if telegram_data is None:
+                # consecutive frame without a preceding first frame
+                self.on_consecutive_frame(telegram_idx, rx_segment_idx, data[1:])
+                self.on_sequence_error(telegram_idx, expected_segment_idx, rx_segment_idx)
+                return
 
             n = -1
             if expected_segment_idx == rx_segment_idx:
@@ -103,6 +115,10 @@ class IsoTpStateMachine:
             if expected_segment_idx != rx_segment_idx:
                 self.on_sequence_error(telegram_idx, expected_segment_idx, rx_segment_idx)
             elif len(telegram_data) == n:
+                # the transfer is finished: stray consecutive frames
+                # must not resurrect it
+                self._telegram_data[telegram_idx] = None
+
                 self.on_telegram_complete(telegram_idx, telegram_data)
                 yield (rx_id, telegram_data)
 
